@@ -242,8 +242,18 @@ func init() { register("memflush", runMemflush) }
 
 type countingFailData struct {
 	recordio.WriterI
-	n, at int
-	hit   *bool
+	n, at     int
+	hit       *bool
+	failClose bool // the final flush inside Close fails (the buffered tail cannot be written)
+}
+
+func (f *countingFailData) Close() error {
+	err := f.WriterI.Close()
+	if f.failClose {
+		*f.hit = true
+		return errors.New("injected failure while flushing in Close")
+	}
+	return err
 }
 
 func (f *countingFailData) Write(r []byte) (uint64, error) {
@@ -258,8 +268,18 @@ func (f *countingFailData) Write(r []byte) (uint64, error) {
 
 type countingFailIndex struct {
 	rProto.WriterI
-	n, at int
-	hit   *bool
+	n, at     int
+	hit       *bool
+	failClose bool
+}
+
+func (f *countingFailIndex) Close() error {
+	err := f.WriterI.Close()
+	if f.failClose {
+		*f.hit = true
+		return errors.New("injected failure while flushing in Close")
+	}
+	return err
 }
 
 func (f *countingFailIndex) Write(m proto.Message) (uint64, error) {
@@ -298,9 +318,14 @@ func runMemflush(args []string) error {
 		}
 		hit := false
 		sstables.VerifOnWriterOpen = func(w *sstables.SSTableStreamWriter) {
-			if c.Which == "data" {
+			switch c.Which {
+			case "data":
 				w.VerifWrapWriters(func(d recordio.WriterI) recordio.WriterI { return &countingFailData{WriterI: d, at: c.Pos, hit: &hit} }, nil)
-			} else {
+			case "dataclose":
+				w.VerifWrapWriters(func(d recordio.WriterI) recordio.WriterI { return &countingFailData{WriterI: d, at: -1, hit: &hit, failClose: true} }, nil)
+			case "indexclose":
+				w.VerifWrapWriters(nil, func(i rProto.WriterI) rProto.WriterI { return &countingFailIndex{WriterI: i, at: -1, hit: &hit, failClose: true} })
+			default:
 				w.VerifWrapWriters(nil, func(i rProto.WriterI) rProto.WriterI { return &countingFailIndex{WriterI: i, at: c.Pos, hit: &hit} })
 			}
 		}
